@@ -217,9 +217,14 @@ pub struct Setup {
     pub validators: u8,
     pub unbonding_time: u64,
     /// 0 = the default address generator; k > 0 = a custom generator that maps every unsalted
-    /// instantiation to one of k addresses (so that address collisions happen)
+    /// instantiation to one of k & 0x7f addresses (so that address collisions happen); with bit 7 set
+    /// every odd address of the pool is the string right after its predecessor (adjacent key spaces)
     #[serde(default)]
     pub addr_pool: u8,
+    /// the App's Api: 0 = cosmwasm-std's `MockApi` (what `App::default()` uses), 1 = the crate's own
+    /// `MockApiBech32`; both with the prefix of the instance
+    #[serde(default)]
+    pub api: u8,
 }
 
 #[derive(Clone, Debug, Serialize, Deserialize, PartialEq, Eq)]
